@@ -26,6 +26,8 @@ CONFIG = {
                 spec=['C06/', 'C01/', 'C02/'], n=(180, 3000)),
     'C10': dict(profiles=['fol', 'fol', 'mixed'], fwd_tags=['cons'], bwd=True, o1=False,
                 spec=['C10/'], n=(210, 4000)),
+    'C08': dict(profiles=['indicators', 'indicators', 'objectives', 'mixed'], fwd_tags=['ind', 'cons', 'obj'], bwd=True, o1=False,
+                spec=['C08/'], n=(240, 4000)),
     'C18': dict(profiles=['malformed', 'malformed', 'mixed'], fwd_tags=[], bwd=False, o1=True, spec=[], n=(400, 6000)),
 }
 
@@ -57,7 +59,7 @@ def confirm_in_coq(ctx, cands):
     vf = os.path.join(ctx.work, 'confirm.v')
     with open(vf, 'w') as f:
         f.write('From Coq Require Import ZArith List Bool String.\n'
-                'From PS.model Require Import Smt Enc Prog Driver.\nFrom PS.spec Require Import Spec.\n'
+                'From PS.model Require Import Smt Enc Ind Prog Driver.\nFrom PS.spec Require Import Spec.\n'
                 'Import ListNotations.\nOpen Scope string_scope.\n')
         for i, (prog, key, wit) in enumerate(cands):
             iv = '; '.join('("%s", (%d)%%Z)' % (k, v) for k, v in sorted(wit.items()) if isinstance(v, int) and not isinstance(v, bool))
